@@ -1077,12 +1077,32 @@ SET_compare(const asn_TYPE_descriptor_t *td, const void *aptr,
                     /* A is absent, but B is present and equal to DEFAULT */
                     continue;
                 }
+                if(elm->default_value_set) {
+                    /* Order an absent member like its DEFAULT value */
+                    void *dflt = 0;
+                    if(elm->default_value_set(&dflt) == 0 && dflt) {
+                        ret = elm->type->op->compare_struct(elm->type, dflt,
+                                                            bmemb);
+                        ASN_STRUCT_FREE(*elm->type, dflt);
+                        if(ret != 0) return ret;
+                    }
+                }
                 return -1;
             } else if(!bmemb) {
                 if(elm->default_value_cmp
                    && elm->default_value_cmp(amemb) == 0) {
                     /* B is absent, but A is present and equal to DEFAULT */
                     continue;
+                }
+                if(elm->default_value_set) {
+                    /* Order an absent member like its DEFAULT value */
+                    void *dflt = 0;
+                    if(elm->default_value_set(&dflt) == 0 && dflt) {
+                        ret = elm->type->op->compare_struct(elm->type, amemb,
+                                                            dflt);
+                        ASN_STRUCT_FREE(*elm->type, dflt);
+                        if(ret != 0) return ret;
+                    }
                 }
                 return 1;
             }
